@@ -159,6 +159,8 @@ class Compiler:
             if isinstance(node, VariableDeclaration):
                 for decl in node.declarations:
                     names.add(decl.id.name)
+            elif isinstance(node, CatchClause):
+                names.add(node.param.name)
             for value in node.__dict__.values():
                 if isinstance(value, Node):
                     stack.append(value)
@@ -488,6 +490,10 @@ class Compiler:
         elif isinstance(node, FunctionDeclaration):
             var_set.add(node.id.name)
             # Don't recurse into function body
+        elif isinstance(node, CatchClause):
+            # The catch parameter is a variable of the enclosing function
+            var_set.add(node.param.name)
+            self._collect_var_decls(node.body, var_set)
         elif isinstance(node, BlockStatement):
             for stmt in node.body:
                 self._collect_var_decls(stmt, var_set)
@@ -865,9 +871,9 @@ class Compiler:
                 self._emit(OpCode.CATCH)
                 # Store exception in catch variable
                 name = node.handler.param.name
-                self._add_local(name)
-                slot = self._get_local(name)
-                self._emit(OpCode.STORE_LOCAL, slot)
+                if self._in_function:
+                    self._add_local(name)
+                self._emit_store_variable(name)
                 self._emit(OpCode.POP)
                 if node.finalizer:
                     # An exception thrown by the catch block still has to run
